@@ -849,6 +849,16 @@ class H2Stream:
         # First, check if we're a client. If we are, no problem: if we aren't,
         # we need to scan the header block to see if this is an informational
         # response.
+        # The block is classified as it will be sent: with names lowercased
+        # and surrounding whitespace stripped when normalisation is enabled.
+        if self.config.normalize_outbound_headers:
+            headers = [
+                header.__class__(header[0].lower().strip(), header[1].strip())
+                if isinstance(header, HeaderTuple)
+                else (header[0].lower().strip(), header[1].strip())
+                for header in headers
+            ]
+
         input_ = StreamInputs.SEND_HEADERS
         if ((not self.state_machine.client) and
                 is_informational_response(headers)):
